@@ -42,6 +42,9 @@ PROP = dict(
                 'violation (crash capture of the in-flight case)'),
     rule=('case = (api, state, 4 parameter bytes, array descriptor); one '
           'evaluation per (API, input, k) triple plus the fault-free run; '
+          'the adaptive analysis / encode APIs also get arrays above 10000 '
+          'elements, half of them sampler-fooling (every k-th element one '
+          'common value, the rest distinct); '
           'non-trivial = k > 1 or the failed allocation site lies in a callee '
           'of the API; distinct by hash of (api, state, parameters, array, k); '
           'classes site.<api>@<function:line> list every failed site, '
